@@ -1133,6 +1133,7 @@ def b_cond_timedwait(ex, st, args, ins):
 @builtin('pthread_cond_signal')
 def b_cond_signal(ex, st, args, ins):
     c = args[0]; ws = _waiters(st, c)
+    st.mem.load(c, 4)      # the condition variable must still be alive (use after destruction of its owner)
     if not ws: return 0
     # any one waiter may be released: split over the choice
     k = len(st.inputs)
@@ -1148,6 +1149,7 @@ def b_cond_signal(ex, st, args, ins):
     return 0
 @builtin('pthread_cond_broadcast')
 def b_cond_broadcast(ex, st, args, ins):
+    st.mem.load(args[0], 4)      # the condition variable must still be alive (use after destruction of its owner)
     _set_waiters(st, args[0], ()); return 0
 
 # semaphores: the word at the address is the count
